@@ -177,12 +177,20 @@ class C16(PropBase):
             metas.append(a)
         # asymmetric constructions through the layer op
         h1, h2 = gen.rand_half(rng), gen.rand_half(rng)
-        txp = rng.choice([True, True, False])
-        rxp = rng.choice([True, True, False])
-        asym = {'asym': True, 'auto_partial': False, 'tx': dict(h1['tx'], **({'tx_only': True} if txp else {})),
-                'rx': dict(h2['rx'], **({'rx_only': True} if rxp else {}))}
+        # each half: the right partial kind / a full address / the partial kind of the WRONG direction (all three are valid Address objects,
+        # only the first is acceptable as that half of an AsymmetricAddress)
+        txk = rng.choice(['ok', 'ok', 'full', 'wrong'])
+        rxk = rng.choice(['ok', 'ok', 'full', 'wrong'])
+
+        def full(h):
+            d = dict(h['tx'])
+            d.update(h['rx'])
+            return d
+        tx = {'ok': dict(h1['tx'], tx_only=True), 'full': full(h1), 'wrong': dict(h1['rx'], rx_only=True)}[txk]
+        rx = {'ok': dict(h2['rx'], rx_only=True), 'full': full(h2), 'wrong': dict(h2['tx'], tx_only=True)}[rxk]
+        asym = {'asym': True, 'auto_partial': False, 'tx': tx, 'rx': rx}
         ops.append({'op': 'layer', 'i': 0, 'addr': asym, 'params': {}})
-        return {'ops': ops, 'meta': {'family': 'addr', 'asym_ok': txp and rxp}}
+        return {'ops': ops, 'meta': {'family': 'addr', 'asym_ok': txk == 'ok' and rxk == 'ok'}}
 
     def params_scenario(self, rng):
         ops = []
